@@ -154,6 +154,9 @@ type ClientCfg struct {
 	ProbeAtOnce bool
 	// NoAutoPong: do not answer pings (v4) automatically in reader loops.
 	NoAutoPong bool
+	// ChunkedPost: data requests are sent with Transfer-Encoding: chunked (no Content-Length),
+	// as HTTP/1.1 clients that stream their body do.
+	ChunkedPost bool
 }
 
 // Recv is one packet received by a client.
@@ -530,7 +533,7 @@ func (c *Client) PostStart(ps []refcodec.Packet) *Exchange {
 		ct = "application/x-www-form-urlencoded"
 	}
 	h.Set("Content-Type", ct)
-	return c.W.Start(ReqSpec{Method: "POST", Target: c.path() + "?" + c.query(true, "polling"), Header: h, Body: body})
+	return c.W.Start(ReqSpec{Method: "POST", Target: c.path() + "?" + c.query(true, "polling"), Header: h, Body: body, Chunked: c.Cfg.ChunkedPost})
 }
 
 // Post submits packets and waits for the acknowledgement.
